@@ -432,7 +432,7 @@ func c05NestedLoop() {
 	innerInt := vchoose("inner", 3)    // 0 none, 1 before x, 2 after p
 	outerInt := vchoose("outer", 4)    // 0 none, 1 before sub, 2 after sub, 3 after pre
 	desc := []string{"", "inner-before:x ", "inner-after:p "}[innerInt] + []string{"", "before:sub", "after:sub", "after:pre"}[outerInt]
-	loops := vrange("loops", 0, 2) // how often the branch goes back to pre
+	loops := vrange("loops", 0, 2)                // how often the branch goes back to pre
 	withCompileCB := vchoose("compileCB", 2) == 1 // the enclosing graphs are compiled with a compile callback
 	visitsSeen := map[bool]int{}
 	build := func(log *vLog, interrupts bool, store CheckPointStore) (Runnable[map[string]any, map[string]any], error) {
@@ -741,7 +741,9 @@ func VerifC05Rerun() { c05Rerun() }
 func VerifC06Rerun() { c05Mode = 6; c05Rerun() }
 
 // A chain whose nodes change the value type, with pass-through nodes in between:
-//   START -> len(string->int) -> p(pass) -> dbl(int->int) -> q(pass) -> str(int->string) -> END
+//
+//	START -> len(string->int) -> p(pass) -> dbl(int->int) -> q(pass) -> str(int->string) -> END
+//
 // one or two interrupt points (before/after any node), every call in its own paradigm (Invoke/Stream): the pending
 // input of every node kind (typed, pass-through) survives the checkpoint in both the value and the stream form.
 func c05TypedChain() {
@@ -857,8 +859,118 @@ func c05TypedChain() {
 	}
 }
 
-func VerifC05TypedChain() { c05TypedChain() }
-func VerifC06TypedChain() { c05Mode = 6; c05TypedChain() }
+func c05TypedChainB() {
+	ctx := context.Background()
+	vcfg("fifo", 1)
+	vcfg("selectfirst", 1)
+	names := []string{"p", "len", "q", "str"}
+	counts := map[string]int{}
+	x := vsymStr("x")
+	g := NewGraph[string, string]()
+	_ = g.AddPassthroughNode("p")
+	_ = g.AddLambdaNode("len", InvokableLambda(func(ctx context.Context, in string) (int, error) {
+		counts["len"]++
+		a5(in == x, "typed chain (backward): node len runs on the original input")
+		return len(in), nil
+	}))
+	_ = g.AddPassthroughNode("q")
+	_ = g.AddLambdaNode("str", InvokableLambda(func(ctx context.Context, in int) (string, error) {
+		counts["str"]++
+		a5(in == len(x), "typed chain (backward): node str runs on the value len produced")
+		if in > 2 {
+			return "long", nil
+		}
+		return "short", nil
+	}))
+	// edges declared from END backwards: every pass-through takes its type from the node that follows it
+	_ = g.AddEdge("str", END)
+	_ = g.AddEdge("q", "str")
+	_ = g.AddEdge("len", "q")
+	_ = g.AddEdge("p", "len")
+	_ = g.AddEdge(START, "p")
+	var before, after []string
+	nInt := 1 + vchoose("points", 2)
+	used := map[string]bool{}
+	desc := ""
+	stops := map[int]bool{} // distinct places between two nodes at which the run has to stop
+	for i := 0; i < nInt; i++ {
+		k := vchoose("node", len(names))
+		n := names[k]
+		if used[n] {
+			return
+		}
+		used[n] = true
+		if vchoose("when", 2) == 0 {
+			before = append(before, n)
+			desc += "before:" + n + " "
+			stops[k] = true
+		} else {
+			after = append(after, n)
+			desc += "after:" + n + " "
+			if k+1 < len(names) { // the run finishes with the last node: nothing left to stop before
+				stops[k+1] = true
+			}
+		}
+	}
+	store := &vStore{m: map[string][]byte{}}
+	mon := &c06Mon{}
+	_ = mon
+	r, err := g.Compile(ctx, WithCheckPointStore(store), WithInterruptBeforeNodes(before), WithInterruptAfterNodes(after))
+	vassert(err == nil, "typed chain (backward) compiles")
+	want := "short"
+	if len(x) > 2 {
+		want = "long"
+	}
+	var out string
+	var rerr error
+	interrupts := 0
+	for call := 0; call < 4; call++ {
+		if vchoose("paradigm", 2) == 1 {
+			desc += "S "
+			sr, e := r.Stream(ctx, x, WithCheckPointID("t"))
+			rerr = e
+			if e == nil {
+				out = ""
+				for i := 0; i < 4; i++ {
+					c, e := sr.Recv()
+					if e == io.EOF {
+						break
+					}
+					if e != nil {
+						rerr = e
+						break
+					}
+					out += c
+				}
+				sr.Close()
+			}
+		} else {
+			desc += "I "
+			out, rerr = r.Invoke(ctx, x, WithCheckPointID("t"))
+		}
+		if rerr == nil {
+			break
+		}
+		info, ok := ExtractInterruptInfo(rerr)
+		vassert(ok, "typed chain (backward): the run is only ever stopped by interrupts, reported as such (not by a conversion failure) ("+desc+")")
+		if !ok {
+			return
+		}
+		a6(len(info.BeforeNodes)+len(info.AfterNodes) > 0, "typed chain (backward): the interrupt reports its nodes ("+desc+")")
+		interrupts++
+	}
+	a5(rerr == nil, "typed chain (backward): the run completes after at most one resume per interrupt point ("+desc+")")
+	a5(out == want, "typed chain (backward): the resumed run returns the uninterrupted result ("+desc+")")
+	a6(interrupts == len(stops), "typed chain (backward): one interrupt per place at which a configured node asks the run to stop ("+desc+")")
+	for _, n := range []string{"len", "str"} {
+		a5(counts[n] == 1, "typed chain (backward): node "+n+" executed exactly once over all calls ("+desc+")")
+	}
+}
+
+func VerifC05TypedChain()  { c05TypedChain() }
+func VerifC05TypedChainB() { c05TypedChainB() }
+func VerifC06TypedChainB() { c05Mode = 6; c05TypedChainB() }
+func VerifC06TypedChain()  { c05Mode = 6; c05TypedChain() }
 
 // Three independent lanes START -> n_i -> m_i -> END run side by side in one graph (Pregel or DAG); the head of
 // every lane is a plain node, a node that asks for interrupt-and-rerun on its first attempt, or a nested graph with an
@@ -1018,8 +1130,14 @@ func c05Big() *vG {
 
 func VerifC05BigPregel() { c05Check(c05Big(), false, 0, 9, []string{"a", "b", "c", "d", "e", "f"}) }
 func VerifC05BigDAG()    { c05Check(c05Big(), true, 0, 9, []string{"a", "b", "c", "d", "e", "f"}) }
-func VerifC06BigPregel() { c05Mode = 6; c05Check(c05Big(), false, 0, 9, []string{"a", "b", "c", "d", "e", "f"}) }
-func VerifC06BigDAG()    { c05Mode = 6; c05Check(c05Big(), true, 0, 9, []string{"a", "b", "c", "d", "e", "f"}) }
+func VerifC06BigPregel() {
+	c05Mode = 6
+	c05Check(c05Big(), false, 0, 9, []string{"a", "b", "c", "d", "e", "f"})
+}
+func VerifC06BigDAG() {
+	c05Mode = 6
+	c05Check(c05Big(), true, 0, 9, []string{"a", "b", "c", "d", "e", "f"})
+}
 
 // thorough tier: a cycle with a fan inside (a -> {b, c} -> d -> branch back to a | END), up to three rounds
 func c05CycleFan() *vG {
@@ -1028,7 +1146,10 @@ func c05CycleFan() *vG {
 }
 
 func VerifC05CycleFan() { c05CheckL(c05CycleFan(), false, 14, 11, []string{"a", "b", "d"}, 2) }
-func VerifC06CycleFan() { c05Mode = 6; c05CheckL(c05CycleFan(), false, 14, 11, []string{"a", "b", "d"}, 2) }
+func VerifC06CycleFan() {
+	c05Mode = 6
+	c05CheckL(c05CycleFan(), false, 14, 11, []string{"a", "b", "d"}, 2)
+}
 
 // a join node fed by START directly and by another node: at an interrupt the value START sent is still waiting in the
 // join's channel and has to survive the checkpoint in the paradigm of the interrupted call
@@ -1038,8 +1159,14 @@ func c05StartJoin() *vG {
 
 func VerifC05StartJoinPregel() { c05Check(c05StartJoin(), false, 0, 6, []string{"a", "b", "x"}) }
 func VerifC05StartJoinDAG()    { c05Check(c05StartJoin(), true, 0, 6, []string{"a", "b", "x"}) }
-func VerifC06StartJoinPregel() { c05Mode = 6; c05Check(c05StartJoin(), false, 0, 6, []string{"a", "b", "x"}) }
-func VerifC06StartJoinDAG()    { c05Mode = 6; c05Check(c05StartJoin(), true, 0, 6, []string{"a", "b", "x"}) }
+func VerifC06StartJoinPregel() {
+	c05Mode = 6
+	c05Check(c05StartJoin(), false, 0, 6, []string{"a", "b", "x"})
+}
+func VerifC06StartJoinDAG() {
+	c05Mode = 6
+	c05Check(c05StartJoin(), true, 0, 6, []string{"a", "b", "x"})
+}
 
 // Eager (Workflow) runs in which an interrupt-after node, a node asking for a rerun, a join over two lanes and a
 // node with a control-only dependency complete in every order the scheduler allows (one deviation from the
